@@ -12,9 +12,21 @@
 (* _event_active flags), log = enter / leave / fail records as seen at SBlock.event().   *)
 (* ResetOnError = TRUE is the code's try/finally; FALSE is the deviation "flag not       *)
 (* cleared on the exception path" used as a sharpness self-test.                         *)
+(*                                                                                       *)
+(* Kind "ztg" = a two-state FSM whose states are timed with a ZERO duration and whose    *)
+(* timed event has no transition: entering the new state delivers the timed event at     *)
+(* once, from inside the FSM's enable-window (fsm.py:_start_timer), the event is checked *)
+(* - no transition - and the on_notrans events (= the edges) are sent.  The code sends   *)
+(* the timed event through event(), so the guard is held while the edges are followed    *)
+(* and an event coming back is refused; the output is assigned only afterwards, so it    *)
+(* keeps its old value when the cascade fails.  win = blocks whose window was left open  *)
+(* (deviation only): an event coming back is then accepted as a chained transition.      *)
 EXTENDS Integers, Sequences
 
-CONSTANTS ResetOnError
+CONSTANTS ResetOnError,
+          ZeroTimerGuarded   \* TRUE = the code: an FSM's zero-length timed event goes through event()
+                             \* again, i.e. the guard is taken for the time it is checked; FALSE = the
+                             \* deviation "handled by _event() directly inside the enable-window"
 
 Truthy(v) == v = 1
 Log(S, k, b, v) == [S EXCEPT !.log = Append(@, <<k, b, v>>)]
@@ -25,6 +37,8 @@ RECURSIVE Deliver(_, _, _, _, _), SendAll(_, _, _, _, _, _)
 (* "no event": the guard is taken and released, the handler is not called                *)
 Deliver(g, b, v, condNone, S) ==
     IF S.err THEN S
+    ELSE IF b \in S.win
+    THEN Log(Log(S, "enter", b, v), "leave", b, v)          \* (deviation) accepted inside the window
     ELSE IF b \in S.act
     THEN [Log(Log(S, "enter", b, v), "fail", b, v) EXCEPT !.err = TRUE]     \* refused, fatal
     ELSE LET S1 == [Log(S, "enter", b, v) EXCEPT !.act = @ \cup {b}]
@@ -34,6 +48,12 @@ Deliver(g, b, v, condNone, S) ==
                                SendAll(g, b, v, S1.vals[b] # v, 1, [S1 EXCEPT !.vals[b] = v])
                           [] g.kind[b] = "tgl" ->
                                SendAll(g, b, 1 - S1.vals[b], TRUE, 1, [S1 EXCEPT !.vals[b] = 1 - @])
+                          [] g.kind[b] = "ztg" ->
+                               LET W == IF ZeroTimerGuarded THEN S1
+                                        ELSE [S1 EXCEPT !.act = @ \ {b}, !.win = @ \cup {b}]
+                                   T == SendAll(g, b, 1 - S1.vals[b], TRUE, 1, W)
+                               IN  IF T.err THEN T
+                                   ELSE [T EXCEPT !.vals[b] = 1 - @, !.win = @ \ {b}, !.act = @ \cup {b}]
          IN  IF S2.err
              THEN [Log(S2, "fail", b, v) EXCEPT !.act = IF ResetOnError THEN @ \ {b} ELSE @]
              ELSE [Log(S2, "leave", b, v) EXCEPT !.act = @ \ {b}]
@@ -47,7 +67,7 @@ SendAll(g, b, v, changed, i, S) ==
          ELSE LET none == (e.cond = "tnone" /\ Truthy(v)) \/ (e.cond = "fnone" /\ ~Truthy(v))
               IN  SendAll(g, b, v, changed, i + 1, Deliver(g, e.to, v, none, S))
 
-Start(vals) == [vals |-> vals, act |-> {}, log |-> <<>>, err |-> FALSE]
+Start(vals) == [vals |-> vals, act |-> {}, win |-> {}, log |-> <<>>, err |-> FALSE]
 External(g, b, v, vals) == Deliver(g, b, v, FALSE, Start(vals))
 
 (* ---- properties of one result ---- *)
